@@ -12,7 +12,7 @@ repo = Repo()
 out = {}
 for i in range(1, 21):
     p = 'C%%02d' %% i
-    code, results = R.check(p, 'quick', repo=Repo(), quiet=True, write=False)
+    code, results = R.check(p, 'quick', repo=repo, quiet=True, write=False)
     out[p] = [code, [r['ob'].oid for r in results if r['status'] == 'VIOLATION']]
 print('JSON' + json.dumps(out))
 ''' % V
